@@ -632,11 +632,14 @@ class DSG:
         return len(self._graph.nodes) > 0 and len(self.choice_nodes) == 0
 
     def _check_unconnected_connectors(self):
+        # Grouping nodes are shared with other graphs: make sure their degrees are those of this graph
+        self._update_connector_grouping_degrees()
         if len(get_unconnected_connectors(self._graph, self.derivation_start_nodes, stop_at_one=True)) > 0:
             raise ValueError('There are unconnectable ports')
 
     @property
     def unconnected_connectors(self):
+        self._update_connector_grouping_degrees()
         return get_unconnected_connectors(self._graph, self.derivation_start_nodes)
 
     """#############################
